@@ -192,12 +192,21 @@ def run_iteration_order(mutate=None):
     return dict(obls=obls, paths=n, sources=getattr(body, "srcs", []), consistent=True)
 
 
+def _initial_frame(m=None):
+    """frame 0 of an unseeded run holds defined values (shared unit with C11; numpy's uninitialised allocations are poisoned)"""
+    from checks import c11
+    r = c11.run_seed(m)
+    r["obls"] = [o for o in r["obls"] if o.name.startswith("C09.") or not o.name.startswith("C")]
+    return r
+
+
 def units():
     us = [Unit("get_A_induced_numba", c13.M + ":get_A_induced_numba", run_kernel_screening, props=["C09"], timeout=600),
           Unit("_biot_savart_2d_z", c20.EM + ":_biot_savart_2d_z", _k(c20.run_bs_z), props=["C09"], timeout=600),
           Unit("_biot_savart_2d_vector", c20.EM + ":_biot_savart_2d_vector", _k(c20.run_bs_vec), props=["C09"], timeout=600)]
     for nm, dim, root in c20.KERNELS:
         us.append(Unit(nm, c20.DM + ":" + nm, _k(c20.run_dist(nm, dim, root)), props=["C09"], timeout=300))
+    us.append(Unit("TDGLSolver.solve[initial frame]", "tdgl.solver.solver:TDGLSolver.solve", _initial_frame, props=["C09", "C11"], timeout=300))
     us.append(Unit("iteration order", "tdgl (numerical core, syntactic)", run_iteration_order, props=["C09"], timeout=300))
     us.append(Unit("validate_terminal_currents[rng]", "tdgl.solver.solver:validate_terminal_currents", run_rng, props=["C09"], timeout=300))
     return us
@@ -255,6 +264,43 @@ print("SHA", h.hexdigest())
     return bad, n
 
 
+def native_malloc():
+    import os
+    import subprocess
+    import sys
+    import tempfile
+    prog = r'''
+import sys, os, hashlib
+sys.path.insert(0, os.environ["PYVC_REPO_PATH"])
+import logging; logging.disable(logging.CRITICAL)
+import numpy as np, h5py, tdgl
+from tdgl.geometry import box
+junk = [np.random.default_rng(int(os.environ["PYVC_JUNK"])).random(50000) for _ in range(20)]; del junk      # dirty the heap differently per process
+layer = tdgl.Layer(coherence_length=0.5, london_lambda=2, thickness=0.1, gamma=1)
+dev = tdgl.Device("d", layer=layer, film=tdgl.Polygon("film", points=box(3, 2)), length_units="um")
+dev.make_mesh(max_edge_length=0.5, smooth=3)
+sol = tdgl.solve(dev, tdgl.SolverOptions(solve_time=0.2, output_file=sys.argv[1], save_every=20), applied_vector_potential=0.2)
+with h5py.File(sol.path, "r") as f:
+    for k in sorted(f["data"], key=int):
+        for nm in ("psi", "mu", "supercurrent", "normal_current", "induced_vector_potential"):
+            print("SHA", k, nm, hashlib.sha256(np.ascontiguousarray(f["data"][k][nm][()]).tobytes()).hexdigest()[:16])
+'''
+    repo = os.environ.get("PYVC_REPO", "/repo")
+    outs = []
+    for junk, perturb in (("1", "85"), ("2", "170"), ("3", None)):
+        with tempfile.TemporaryDirectory() as td:
+            env = dict(os.environ, PYVC_REPO_PATH=repo, PYVC_JUNK=junk, NUMBA_NUM_THREADS="2", TQDM_DISABLE="1")
+            if perturb:
+                env["MALLOC_PERTURB_"] = perturb
+            p = subprocess.run([sys.executable, "-c", prog, os.path.join(td, "o.h5")], capture_output=True, text=True, env=env, timeout=900)
+            outs.append([l for l in p.stdout.splitlines() if l.startswith("SHA")] or ["ERR " + p.stderr[-300:]])
+    bad = []
+    if any(o != outs[0] for o in outs[1:]) and not any(o[0].startswith("ERR") for o in outs):
+        diff = sorted({a.split()[1] + "/" + a.split()[2] for o in outs[1:] for a, b in zip(o, outs[0]) if a != b})
+        bad.append(dict(what="recorded datasets differ between fresh processes that differ only in the state of their heap", datasets=diff[:6]))
+    return bad, len(outs)
+
+
 def native_hashseed(seeds=(1, 2, 3, 4, 5, 6)):
     """BOUNDED / replay: the same five-terminal simulation in fresh processes that differ only in PYTHONHASHSEED"""
     import os
@@ -305,6 +351,10 @@ def replay_scope(unit, obl):
 
 
 def replay(unit, obl):
+    if unit.startswith("TDGLSolver.solve"):
+        # two fresh processes with different malloc fill patterns: every recorded dataset (frame 0 included) must have the same bytes
+        bad, n = native_malloc()
+        return dict(confirmed=bool(bad), failing_input=(bad or [None])[0], evaluations=n)
     if unit == "iteration order":
         bad, n = native_hashseed()
         if bad and not any(v.startswith("ERR") for v in bad[0]["digests"].values()):
